@@ -11,6 +11,7 @@ type zzIdleProbe struct {
 	g          *zzIdleGhost
 	panicFirst bool
 	panicInactive bool
+	closeInActive func()
 	events     int
 }
 
@@ -53,6 +54,13 @@ func (p *zzIdleProbe) HandleEvent(ctx EventContext, ev Event) {
 	ctx.HandleEvent(ev)
 }
 
+func (p *zzIdleProbe) HandleActive(ctx ActiveContext) {
+	if p.closeInActive != nil {
+		p.closeInActive()
+	}
+	ctx.HandleActive()
+}
+
 // HandleInactive: the probe sits behind the idle handler, so the inactive event has passed the idle handler when it
 // arrives here. A downstream handler takes time (scheduling point) and may fail.
 func (p *zzIdleProbe) HandleInactive(ctx InactiveContext, ex Exception) {
@@ -82,8 +90,13 @@ func ZZ_C20_Idle(kind, traffic, withInactive, panicFirst int) {
 	d := 2000000000 // concrete clock in this (concurrent) harness; the symbolic clock is ZZ_C20_Timing's subject
 	adv := []int{0, 1000000000, 2000000000, 5000000000}
 	g.d = int64(d)
-	probe := &zzIdleProbe{g: g, panicFirst: panicFirst != 0}
+	probe := &zzIdleProbe{g: g, panicFirst: panicFirst == 1}
 	tr := newZZTransport()
+	if panicFirst == 2 {
+		// the first outbound write passes the idle handler and then fails further down (the transport refuses it)
+		tr.failWriteAt = 1
+		tr.writeErr = zzErrUserClose
+	}
 	pl := NewPipeline()
 	if kind == 0 {
 		pl.AddLast(ReadIdleHandler(time.Duration(d)), probe)
@@ -92,6 +105,18 @@ func ZZ_C20_Idle(kind, traffic, withInactive, panicFirst int) {
 	}
 	ch := zzNewChannel(pl, tr, 0, false)
 	g.activeAt = vrt.Now()
+	if withInactive == 3 {
+		// a handler behind the idle handler refuses the connection: it closes the channel while it handles the active
+		// event, so the inactive event passes the idle handler before the active event has returned
+		probe.closeInActive = func() { ch.Close(zzErrUserClose) }
+		pl.FireChannelActive()
+		vrt.Assert(g.inactive, "c20-inactive-event-delivered-downstream")
+		vrt.Advance(int64(adv[vrt.Choose(len(adv))]))
+		vrt.Quiesce()
+		vrt.Assert(vrt.TimersArmed() == 0, "c20-timer-released-after-inactive")
+		vrt.Reach("c20-inactive-done")
+		return
+	}
 	pl.FireChannelActive()
 	vrt.Assert(vrt.TimersArmed() == 1 || vrt.Fires() > 0, "c20-timer-armed-on-activation")
 	for i := 0; i < traffic; i++ {
@@ -100,7 +125,8 @@ func ZZ_C20_Idle(kind, traffic, withInactive, panicFirst int) {
 		if kind == 0 {
 			pl.FireChannelRead([]byte{byte(i)})
 		} else {
-			vrt.Assert(ch.Write([]byte{byte(i)}) == nil, "c20-write-accepted")
+			werr := ch.Write([]byte{byte(i)})
+			vrt.Assert(werr == nil || (panicFirst == 2 && i == 0), "c20-write-accepted")
 		}
 		g.doneFires[i] = vrt.FiresChecked()
 		g.returned[i] = true
@@ -120,10 +146,14 @@ func ZZ_C20_Idle(kind, traffic, withInactive, panicFirst int) {
 		vrt.Assert(vrt.TimersArmed() == 1, "c20-timer-rearmed-while-active")
 		vrt.Reach("c20-active-done")
 	}
-	if panicFirst != 0 && g.events >= 1 {
+	switch {
+	case panicFirst == 1 && g.events >= 1:
 		vrt.Assert(g.exceptions == 1, "c20-event-handler-panic-routed-as-one-exception")
 		vrt.Reach("c20-panic-routed")
-	} else {
+	case panicFirst == 2 && kind == 1 && traffic >= 1:
+		vrt.Assert(g.exceptions == 1, "c20-refused-write-raises-one-exception")
+		vrt.Reach("c20-refused-write")
+	default:
 		vrt.Assert(g.exceptions == 0, "c20-no-exception-without-panic")
 	}
 }
